@@ -189,6 +189,8 @@ pub fn generate(ctx: &mut Ctx, rep: &mut Report, emit: &mut dyn FnMut(&mut Ctx, 
                         1 => vec![],
                         2 | 3 => { let mut b = gen_bundle(&mut rng, &Opts { wf: true, max_blocks: 4 }); let v = b.to_cbor(); crate::p_rx::mutate(&mut rng, &v) }
                         _ => { let mut b = gen_valid_bundle(&mut rng);
+                               // payloads at and beyond the 64 KiB head-width boundary now and then
+                               if rng.chance(1, 12) { let n = *rng.pick(&[65_535usize, 65_536, 65_537, 70_000]); b.set_payload(rng.bytes(n)); }
                                // any block order is valid on the wire: the payload block need not be last
                                if rng.chance(1, 2) { for i in (1..b.canonicals.len()).rev() { let j = rng.below(i as u64 + 1) as usize; b.canonicals.swap(i, j); } }
                                b.to_cbor() }
@@ -202,13 +204,17 @@ pub fn generate(ctx: &mut Ctx, rep: &mut Report, emit: &mut dyn FnMut(&mut Ctx, 
                     let src = gen_eid_wf(&mut rng).to_string();
                     let dst = loop { let e = gen_eid_wf(&mut rng); if e != bp7::EndpointID::none() { break e.to_string(); } };
                     if src.contains('\0') || dst.contains('\0') { continue; }
-                    calls.push(format!("N:{}:{}:{}:{}:{}", hex(src.as_bytes()), hex(dst.as_bytes()), rng.u64b(), hex(&gen_payload(&mut rng)), clock));
+                    let pl = if rng.chance(1, 12) { let n = *rng.pick(&[65_535usize, 65_536, 70_000]); rng.bytes(n) } else { gen_payload(&mut rng) };
+                    calls.push(format!("N:{}:{}:{}:{}:{}", hex(src.as_bytes()), hex(dst.as_bytes()), rng.u64b(), hex(&pl), clock));
                     live_bundles.push(next); next += 1;
                 }
                 6..=8 if !live_bundles.is_empty() => {
                     let k = *rng.pick(&live_bundles);
                     match rng.below(4) { 0 => { calls.push(format!("E:{}", k)); live_bufs.push(next); next += 1; } 1 => { calls.push(format!("M:{}", k)); live_meta.push(next); next += 1; }
-                        2 => { calls.push(format!("P:{}", k)); live_bufs.push(next); next += 1; } _ => calls.push(format!("V:{}", k)) }
+                        2 => { calls.push(format!("P:{}", k)); live_bufs.push(next); next += 1;
+                               // the same object asked again: payload, then encoding, then payload (a read must not consume anything)
+                               if rng.chance(1, 3) { calls.push(format!("P:{}", k)); live_bufs.push(next); next += 1; calls.push(format!("E:{}", k)); live_bufs.push(next); next += 1; calls.push(format!("V:{}", k)); } }
+                        _ => calls.push(format!("V:{}", k)) }
                 }
                 _ => {
                     // free something early
